@@ -284,7 +284,7 @@ Proof.
     destruct (stagec _ _ _ _ _ _ _ _ _ _ Wsw3 Wsh3 E4 E5) as (X35 & Rw & Rh & Fr).
     assert (HwB : forall l i, In (l, i) w -> length h <= l \/ exists g n c, sl s g = SArr l n c /\ n <= i).
     { intros l i Hin. destruct (sr_w _ _ _ _ _ _ _ RB _ _ Hin) as [Hf | (n & c & E & Hn)]; auto.
-      right. exists FFromj, n, c. auto. }
+      right. exists FFromj, n, c. split; [auto | lia]. }
     assert (own3 : forall g, rdo h3 (sl s g) = rdo h (sl s g)) by (intro g; eapply rdo_own; eauto).
     assert (own5 : forall g, rdn g h5 (sl s g) = rdn g h (sl s g)).
     { intro g. rewrite Fr.
